@@ -7,6 +7,7 @@ mod mir;
 mod report;
 mod rules;
 mod srcmodel;
+mod inline;
 mod normalize;
 mod tables;
 
@@ -99,6 +100,44 @@ fn main() {
                 }
             }
             println!("{}", serde_json::to_string_pretty(&serde_json::Value::Object(out)).unwrap());
+        }
+        Some("dump-nonterminals") => {
+            // development aid: regenerate refdata/nonterminals.json from the reviewed grammar
+            std::env::remove_var("VERIF_DIR");
+            match tables::load_grammar(&repo) {
+                Ok(g) => println!("{}", serde_json::to_string(&tables::nonterminal_signatures(&g).into_iter().map(|(a, b, c, d)| serde_json::json!([a, b, c, d])).collect::<Vec<_>>()).unwrap()),
+                Err(e) => {
+                    eprintln!("{}", e);
+                    std::process::exit(1)
+                }
+            }
+        }
+        Some("dump-consts") => {
+            // development aid: regenerate refdata/consts.json (names of all const items per file) from the reviewed tree
+            let mut out = serde_json::Map::new();
+            let mut files: Vec<String> = vec![];
+            for d in ["parser/src", "ast/src", "core/src", "format/src", "literal/src", "vendored/src/source_location", "vendored/src/text_size"] {
+                if let Ok(rd) = std::fs::read_dir(repo.join(d)) {
+                    for e in rd.flatten() {
+                        let p = e.path();
+                        if p.extension().map_or(false, |x| x == "rs") {
+                            files.push(format!("{}/{}", d, p.file_name().unwrap().to_string_lossy()));
+                        }
+                    }
+                }
+            }
+            files.sort();
+            for rel in files {
+                if rel.ends_with("python.rs") {
+                    continue;
+                }
+                if let Ok(text) = std::fs::read_to_string(repo.join(&rel)) {
+                    if let Ok(file) = syn::parse_file(&text) {
+                        out.insert(rel.to_string(), serde_json::json!(srcmodel::const_names(&file)));
+                    }
+                }
+            }
+            println!("{}", serde_json::to_string(&serde_json::Value::Object(out)).unwrap());
         }
         Some("dump-fn-params") => {
             // development aid: regenerate refdata/fn_params.json from the current (reviewed) tree
